@@ -21,7 +21,7 @@ LOG_DIR = os.path.join(VERIF, "logs")
 GUARD = "--cfg burntsushi_fst_verif"
 
 CHECK_RE = re.compile(
-    r"^Check (\d+): (\S+)\n\t - Status: (\w+)\n\t - Description: \"(.*)\"\n\t - Location: (.*)$",
+    r"^Check (\d+): (.+)\n\t - Status: (\w+)\n\t - Description: \"(.*)\"\n\t - Location: (.*)$",
     re.M,
 )
 
@@ -100,8 +100,9 @@ def kani_cmd(ob, target_dir, playback=False):
         cmd += ["-Z", "stubbing"]
     if playback:
         cmd += ["-Z", "concrete-playback", "--concrete-playback=print"]
+    cmd += ["-Z", "unstable-options"]
     if not ob.full_checks:
-        cmd += ["-Z", "unstable-options", "--no-memory-safety-checks", "--no-assertion-reach-checks"]
+        cmd += ["--no-memory-safety-checks", "--no-assertion-reach-checks"]
     cmd += ob.extra
     return cmd
 
@@ -150,6 +151,8 @@ def run_obligation(ob, slot, playback=False):
     os.makedirs(LOG_DIR, exist_ok=True)
     target_dir = os.path.join(TARGET_ROOT, "k%d" % slot)
     env = base_env()
+    if playback:
+        env["RUSTFLAGS"] = GUARD + " --cfg verif_playback"
     log_prefix = os.path.join(LOG_DIR, ob.harness.replace("::", "__"))
     cmd = kani_cmd(ob, target_dir, playback=playback)
     note = ""
